@@ -274,7 +274,7 @@ def _work(item):
            "kwargs": {k: repr(v) for k, v in kw.items()}, "backend": backend, "corruption": what}
     o = r["outcome"]
     if o.startswith("INTERNAL") or o == "TIMEOUT":
-        out.append(({"kind": "internal_exception", "exc": o, "site": r.get("site", "")}, {**rec, "message": r.get("message")}))
+        out.append(({"kind": "internal_exception", "exc": o, "site": r.get("site", ""), "corruption": what}, {**rec, "message": r.get("message")}))
     elif o == "value":
         if must_fail:
             out.append(({"kind": "ill_formed_call_returns_value", "corruption": what, "fn": fn}, rec))
@@ -300,6 +300,9 @@ def solve_items(c, rng):
     kind, desc, arrays, kw, must_fail = corrupt(c, rng)
     d = desc.split(" -> ")[0] if rng.random() < 0.8 else desc
     fn = rng.choice(["solve_shapes", "solve_axes", "solve", "matches", "check"])
+    if kind in ("tensor_removed", "tensor_added") and fn != "matches" and "->" not in d and d.count(",") + 1 != len(arrays):
+        # a wrong number of tensors for the expressions must be refused by the solving entry points as well
+        return ("solve:" + kind, fn, d, arrays, kw, True, None)
     if fn == "matches":
         return ("solve:" + kind, fn, d, arrays, kw, False, None)
     return ("solve:" + kind, fn, d, arrays, kw, False, None)
@@ -326,6 +329,14 @@ def run(ctx):
                       ("sum", "[b...]...", (2, 3)), ("sum", "a [[b...]...]", (4, 2, 3)), ("softmax", "[b...]... c", (2, 3, 4))]:
         arrs = [np.zeros(sh)] if sh else [np.zeros((2, 3)), np.zeros((4, 2), dtype=np.int64)]
         items.append(("derived_text", fn, d, arrs, {}, False, None))
+    # expressions nested far deeper than any program writes them: rejected or computed, never an internal error
+    for depth in (120, 400, 1000, 3000):
+        flat = "(" * depth + "a" + ")" * depth
+        items.append(("deep_nesting", "id", flat, [np.arange(3.0)], {}, False, None))
+        items.append(("deep_nesting", "solve_shapes", flat, [np.arange(3.0)], {}, False, None))
+        if depth >= 400:      # (below that, numpy's limit of 64 dimensions decides at run time)
+            nest = "".join(f"(a{i} " for i in range(depth)) + "z" + ")" * depth
+            items.append(("deep_nesting", "sum", nest + " -> z", [np.arange(3.0)], {f"a{i}": 1 for i in range(depth)}, False, None))
     for _ in range(6 if ctx.tier == "quick" else 200):
         for k, fn, d, arrs, kw in rule_breaking(ctx.rng):
             b = ctx.rng.choice([None, None, "numpy.numpylike", "numpy.einsum"])
